@@ -23,6 +23,7 @@ func checkC01(c *Check) {
 	c.disableEnablePairing("C01.7 fsm-table-consistent")
 	c.fsmSlotTypestate("C01.7 fsm-slot-typestate")
 	c.peerConfigVerbatim("C01.7 one-manager-per-peer")
+	c.checkThenActAtomic("C01.7 one-manager-per-peer")
 	c.checkOwnership("C01.7 fsm-table-owned-by-manager")
 	c.rendezvousChannels("C01.1 approval-rendezvous", "transitionCh")
 	c.peerManagerContracts("C01.3 manager-effects")
